@@ -229,6 +229,51 @@ def explore_shard(acc, shard):
         else:
             acc.count("transitions")
             rec(list(prefix))
+    elif kind == "M":
+        # k holds in k columns, open in every possible interleaving: all perfect matchings of the beats 0..2k-1
+        # into (head, tail) pairs, the hold with the i-th earliest head in column i (tails are kept in a heap /
+        # sorted list by the implementation: every push/pop history of up to k pending tails occurs)
+        _, k, part, nparts = shard
+        layer = f"M every interleaving of {k} holds"
+        case = None
+        count = 0
+
+        def matchings(free):
+            if not free:
+                yield []
+                return
+            h = free[0]
+            for j in range(1, len(free)):
+                rest = free[1:j] + free[j + 1:]
+                for m in matchings(rest):
+                    yield [(h, free[j])] + m
+
+        modes = N.MODES if k <= 4 else N.MODES[:1]
+        for idx, m in enumerate(matchings(list(range(2 * k)))):
+            if idx % nparts != part:
+                continue
+            stream = []
+            for col, (hb, tb) in enumerate(m):
+                stream.append((Fraction(hb), col, M.HOLD if col % 2 == 0 else M.ROLL, 0, None))
+                stream.append((Fraction(tb), col, M.TAIL, 0, None))
+            stream.sort(key=M.position)
+            istream = [N.to_impl(n) for n in stream]
+            types = (M.HOLD, M.ROLL, M.TAIL)
+            for mode in modes:
+                case = {"kind": "roundtrip", "stream": fmt_stream(stream), "include": list(types), "mode": mode, "join": True, "head": M.KEEP, "tail": M.KEEP}
+                core.guard_cheap(acc, case)
+                bad = eval_roundtrip(stream, istream, types, mode, True, M.KEEP, M.KEEP)
+                acc.count("evaluations", 3)
+                for pol, e, o in (bad or []):
+                    acc.violation("ungroup(group(stream)) is not the original stream", case, e, o, signature=("roundtrip-M", k, isinstance(o, str)))
+            acc.count("states")
+            acc.count("transitions")
+            acc.count("nontrivial")
+            count += 1
+        if k >= 6:
+            acc.outcome("six holds pending in every interleaving")
+        if case:
+            acc.sample(layer, dict(case, matchings_in_shard=count))
     elif kind == "H":
         _, c1, i1, j1 = shard
         layer = "H hand-built grouped sequences"
@@ -338,6 +383,13 @@ def explore(run):
             for j1 in range(i1 + 1, 4):
                 shards.append(("H", c1, i1, j1))
     shards.append(("P3",))
+    for k in (1, 2, 3, 4, 5):
+        shards.append(("M", k, 0, 1))
+    for part in range(8):
+        shards.append(("M", 6, part, 8))  # 10395 matchings
+    if run.thorough():
+        for part in range(32):
+            shards.append(("M", 7, part, 32))  # 135135 matchings
     shards += [("corpus", i) for i in range(len(N.corpus_charts()))]
     k = run.seed % len(shards)
     shards = shards[k:] + shards[:k]
@@ -349,6 +401,7 @@ def explore(run):
         + "; every node x include sets (all types, all-but-one present type, the empty set) x 3 same-beat modes x (join off + join on x 3x3 orphan policies) x 3 ungroup policies, "
         "compared with 'the included notes minus exactly the orphans the model says were dropped'; "
         "H: one or two NoteWithTail on a 2x4 grid + <=2 plain notes in every other cell x 3 groupings x 3 policies; corpus charts. "
+        "M: k <= 6 (thorough 7) holds in k columns in every interleaving of their heads and tails (all perfect matchings of 2k beats: 10395 for k = 6). "
         "Non-trivial = stream has a head and a tail / a hand-built sequence with plain notes."
     )
     run.assumptions = [
@@ -361,6 +414,7 @@ def explore(run):
     for pol in N.POLICIES:
         core.require(acc.outcomes[f"note inside a joined hold, policy {pol}"] > 0, f"no splitting note under {pol}")
     core.require(acc.outcomes["joined hold beginning inside another joined hold of its column"] > 0, "no nested joined hold")
+    core.require(acc.outcomes["six holds pending in every interleaving"] > 0, "no six-hold interleavings")
     return run.finish(
         states=acc.c["states"],
         transitions=acc.c["transitions"],
